@@ -35,13 +35,50 @@ def exhaustive(L, sizes=(1, 2, 3)):
     return out
 
 
+def exhaustive_faults(L):
+    """all maximal histories of length L over: scalar, block of 2, free, resize of a block (to 1 / 3: shrink, grow), and the
+    two allocation-fault steps (a block whose data allocation fails; a resize whose data allocation fails)"""
+    out = []
+
+    def rec(hist, live, vec, nxt):
+        if len(hist) == L:
+            if any(o.split()[0] in ("rs", "rsx", "avx") for o in hist):
+                out.append(list(hist))
+            return
+        hist.append("a1 %d" % nxt); rec(hist, live + [nxt], vec, nxt + 1); hist.pop()
+        hist.append("av %d 2" % nxt); rec(hist, live + [nxt], vec + [nxt], nxt + 1); hist.pop()
+        hist.append("avx %d 2" % nxt); rec(hist, live, vec, nxt + 1); hist.pop()
+        for k in live:
+            hist.append("d %d" % k); rec(hist, [x for x in live if x != k], [x for x in vec if x != k], nxt); hist.pop()
+        for k in vec:
+            for n in (1, 3):
+                hist.append("rs %d %d" % (k, n)); rec(hist, live, vec, nxt); hist.pop()
+            hist.append("rsx %d 3" % k); rec(hist, [x for x in live if x != k], [x for x in vec if x != k], nxt); hist.pop()
+
+    rec([], [], [], 0)
+    return out
+
+
 def random_history(rng, length, pauses=False):
     """biased towards the rare branches: frees in the middle, re-use of exact-fit and partial-fit gaps"""
     hist, live, nxt = [], [], 0
+    vec = set()      # live handles made by `av` (real aVector objects in obj mode): the ones that can be resized
     target = rng.choice([3, 6, 12, 25])
     paused = False
     for _ in range(length):
         r = rng.random()
+        if rng.random() < 0.06:
+            # resize of a live block (release, then registration under the same handle), allocation faults
+            q = rng.random()
+            if q < 0.3 or not vec:
+                hist.append("avx %d %d" % (nxt, rng.choice([1, 2, 3, 5, 40]))); nxt += 1
+            elif q < 0.8:
+                hist.append("rs %d %d" % (rng.choice(sorted(vec)), rng.choice([1, 1, 2, 3, 4, 5, 7, 9])))
+            else:
+                k = rng.choice(sorted(vec))
+                hist.append("rsx %d %d" % (k, rng.choice([1, 2, 3, 5, 40])))
+                vec.discard(k); live.remove(k)
+            continue
         if pauses and rng.random() < 0.05:
             paused = not paused
             hist.append("pause" if paused else "cont")
@@ -52,6 +89,7 @@ def random_history(rng, length, pauses=False):
                 i = len(live) - 1
             else:
                 i = rng.randrange(len(live))
+            vec.discard(live[i])
             hist.append("d %d" % live.pop(i))
         elif r > 0.97:
             hist.append("nr")
@@ -60,7 +98,7 @@ def random_history(rng, length, pauses=False):
             if k < 0.4:
                 hist.append("a1 %d" % nxt)
             elif k < 0.8:
-                hist.append("av %d %d" % (nxt, rng.choice([1, 1, 2, 2, 3, 4, 5, 7])))
+                hist.append("av %d %d" % (nxt, rng.choice([1, 1, 2, 2, 3, 4, 5, 7]))); vec.add(nxt)
             else:
                 hist.append("af %d %d" % (nxt, rng.randint(1, 4)))
             live.append(nxt); nxt += 1
@@ -69,14 +107,23 @@ def random_history(rng, length, pauses=False):
 
 def valid_sub(hist):
     """drop frees whose allocation is gone (used by the shrinker)"""
-    live, out = set(), []
+    live, vec, out = set(), set(), []
     for op in hist:
         w = op.split()
         if w[0] in ("a1", "av", "af"):
             live.add(w[1]); out.append(op)
+            if w[0] == "av":
+                vec.add(w[1])
+            else:
+                vec.discard(w[1])
         elif w[0] == "d":
             if w[1] in live:
-                live.discard(w[1]); out.append(op)
+                live.discard(w[1]); vec.discard(w[1]); out.append(op)
+        elif w[0] in ("rs", "rsx"):
+            if w[1] in vec:
+                out.append(op)
+                if w[0] == "rsx":
+                    live.discard(w[1]); vec.discard(w[1])
         else:
             out.append(op)
     return out
@@ -117,12 +164,26 @@ def oracle(hist, lines):
             for j in range(idx, idx + n):
                 owner[j] = w[1]
             live[w[1]] = (idx, n)
-        elif w[0] in ("pause", "cont", "nr"):
-            pass
-        elif w[0] == "d":
+        elif w[0] in ("pause", "cont", "nr", "avx"):
+            pass        # avx: the data allocation failed, no object came to exist, nothing may stay registered
+        elif w[0] in ("d", "rsx"):
             idx, n = live.pop(w[1])
             for j in range(idx, idx + n):
                 del owner[j]
+        elif w[0] == "rs":
+            idx, n = live.pop(w[1])
+            for j in range(idx, idx + n):
+                del owner[j]
+            n = int(w[2])
+            idx = d["ret"]
+            if idx is None or idx < 0:
+                return i, "registration returned no valid index"
+            for j in range(idx, idx + n):
+                if j in owner:
+                    return i, "slot %d handed to resized handle %s while still owned by live handle %s" % (j, w[1], owner[j])
+            for j in range(idx, idx + n):
+                owner[j] = w[1]
+            live[w[1]] = (idx, n)
         if owner and max(owner) >= d["mg"]:
             return i, "live slot %d is not below max_gradients()=%d" % (max(owner), d["mg"])
         if d["nr"] != len(owner):
@@ -207,8 +268,10 @@ def run(ctx, replay):
         return
     L = 5 if ctx.tier == "quick" else 7
     ex = exhaustive(L)
+    exf = exhaustive_faults(min(L, 6))
     ctx.notes["exhaustive_length"] = L
     ctx.notes["exhaustive_histories"] = len(ex)
+    ctx.notes["exhaustive_histories_with_resize_or_allocation_fault"] = len(exf)
     nrand, rlen = (500, 300) if ctx.tier == "quick" else (1500, 600)
     rnd = [random_history(ctx.rng, rlen) for _ in range(nrand)]
     rnd_p = [random_history(ctx.rng, rlen, pauses=True) for _ in range(nrand // 2)]
@@ -220,11 +283,14 @@ def run(ctx, replay):
             if corpus:
                 bad += run_batch(ctx, e, mode, corpus, label)
             bad += run_batch(ctx, e, mode, ex if (mode == "api" or ctx.tier == "thorough" or True) else ex[::7], label)
+            bad += run_batch(ctx, e, mode, exf, label)
             bad += run_batch(ctx, e, mode, rnd, label)
             if label == "pausable":
                 bad += run_batch(ctx, e, mode, rnd_p, label + "+pause")
-    ctx.cov["rule"] = ("histories of a1/av n/af n/d/nr over handles: ALL maximal histories of length %d over scalar and block sizes 1..3 "
-                       "(exhaustive) + %d random histories of length %d biased to frees in the middle; each run through the public "
+    ctx.cov["rule"] = ("histories of a1/av n/af n/d/nr/rs k n (resize of a live aVector: release then registration)/avx n (block whose "
+                       "data allocation fails with std::bad_alloc, interposed allocator)/rsx k n (resize whose data allocation fails) over "
+                       "handles: ALL maximal histories of length %d over scalar and block sizes 1..3 (exhaustive) + all of that length over "
+                       "scalar/block/free/resize/allocation-fault steps containing one of the latter + %d random histories of length %d biased to frees in the middle; each run through the public "
                        "register/unregister API and through real adouble/aVector/FixedArray objects; non-trivial = contains a release "
                        "before its last step; distinct = different (mode, op list)" % (L, nrand, rlen))
     ctx.cov["exhaustive"] = False
